@@ -313,6 +313,7 @@ func (t *Task) Execute() {
 
 // anyTempFileExists checks if any temporary workflow files exist and if so, returns true
 func (t *Task) tempDirsExist() bool {
+	vhookTask("in.tmpcheck", t)
 	if _, err := os.Stat(t.TempDir()); os.IsNotExist(err) {
 		return false
 	}
@@ -321,6 +322,7 @@ func (t *Task) tempDirsExist() bool {
 
 // anyOutputsExist if any output file IP, or temporary file IPs, exist
 func (t *Task) anyOutputsExist() (anyFileExists bool) {
+	vhookTask("in.outcheck", t)
 	anyFileExists = false
 	for _, oip := range t.OutIPs {
 		if !oip.doStream {
@@ -336,6 +338,7 @@ func (t *Task) anyOutputsExist() (anyFileExists bool) {
 
 // createDirs creates directories for out-IPs of the task
 func (t *Task) createDirs() error {
+	vhookTask("in.mkdirs", t)
 	err := os.MkdirAll(t.TempDir(), 0777)
 	if err != nil {
 		t.Failf("Could not create tempdir %s: %v", t.TempDir(), err)
@@ -360,13 +363,16 @@ func (t *Task) createDirs() error {
 // executeCommand executes the shell command cmd via bash
 func (t *Task) executeCommand(cmd string) {
 	// cd into the task's tempdir, execute the command, and cd back
+	vhookTask("in.cmd.before", t)
 	out, err := exec.Command("bash", "-c", "cd "+t.TempDir()+" && "+cmd+" && cd ..").CombinedOutput()
+	vhookTask("in.cmd.after", t)
 	if err != nil {
 		t.Failf("Command failed!\nCommand:\n%s\n\nOutput:\n%s\nOriginal error:%s", cmd, string(out), err)
 	}
 }
 
 func (t *Task) writeAuditLogs(startTime time.Time, finishTime time.Time) {
+	vhookTask("in.audit", t)
 	// Append audit info for the task to all its output IPs
 	auditInfo := NewAuditInfo()
 	auditInfo.Command = t.Command
@@ -400,6 +406,7 @@ func (t *Task) writeAuditLogs(startTime time.Time, finishTime time.Time) {
 }
 
 func (t *Task) ensureAllOutputsExist() {
+	vhookTask("in.ensure", t)
 	for _, ip := range t.OutIPs {
 		filePath := filepath.Join(t.TempDir(), ip.TempPath())
 		if _, err := os.Stat(filePath); os.IsNotExist(err) && !ip.doStream {
@@ -436,6 +443,7 @@ func (t *Task) Fail(msg interface{}) {
 // It is called both from Task, and from Process that implement cutom execution
 // schedule.
 func FinalizePaths(tempExecDir string, ips ...*FileIP) error {
+	vhook("in.finalize", tempExecDir)
 	for _, oip := range ips {
 		// Move paths for ports, to final destinations
 		if !oip.doStream {
